@@ -258,6 +258,7 @@ fn run_nibbles(bytes: &[u8], mask: u8) -> i64 {
 
 struct ChunkOut {
     evals: u64,
+    mismatches: u64,
     hist: [u64; 2 * N_LZ],
     first00: u64,
     first7f: u64,
@@ -279,6 +280,7 @@ fn run_chunk(seed: u64, index: u64, n: u64, py_quota: usize) -> ChunkOut {
     let mut rng = Rng::stream(seed, index);
     let mut out = ChunkOut {
         evals: 0,
+        mismatches: 0,
         hist: [0; 2 * N_LZ],
         first00: 0,
         first7f: 0,
@@ -318,6 +320,9 @@ fn run_chunk(seed: u64, index: u64, n: u64, py_quota: usize) -> ChunkOut {
         if !combo_seen[combo] {
             combo_seen[combo] = true;
             out.combos.push(combo as u32);
+        }
+        if c.observed != c.expected {
+            out.mismatches += 1;
         }
         if c.observed != c.expected && out.violations.len() < 16 {
             out.violations.push((
@@ -515,8 +520,18 @@ fn replay(cli: &Cli, report: &mut Report, path: &std::path::Path) {
     }
 }
 
+/// A replay judges one case; unless `--evidence` was given explicitly its evidence goes to the
+/// scratch directory so that the tier evidence of the property is not overwritten.
+fn keep_tier_evidence_on_replay(cli: &mut Cli) {
+    if cli.replay.is_some() && !std::env::args().any(|a| a == "--evidence") {
+        let root = std::env::var("VERIF_ROOT").unwrap_or_else(|_| "/verif".into());
+        cli.evidence = std::path::PathBuf::from(format!("{root}/.run/{}-replay-evidence.json", cli.prop));
+    }
+}
+
 fn main() {
-    let cli = Cli::parse();
+    let mut cli = Cli::parse();
+    keep_tier_evidence_on_replay(&mut cli);
     report::watchdog(&cli.prop, 900);
     let mut report = Report::new(
         &cli,
@@ -626,6 +641,7 @@ fn main() {
     let mut random_samples_shown = 0;
     for o in outs {
         report.add_evals(o.evals);
+        report.count("random triples where the real function and the reference differ", o.mismatches);
         for (a, b) in hist.iter_mut().zip(o.hist.iter()) {
             *a += b;
         }
@@ -728,11 +744,10 @@ fn main() {
     // ---- second opinion: python3 hashlib over a sample
     let root = std::env::var("VERIF_ROOT").unwrap_or_else(|_| "/verif".into());
     let path = std::path::PathBuf::from(format!(
-        "{root}/.run/{}-python-sample-{}-seed{}-{}.txt",
+        "{root}/.run/{}-python-sample-{}-seed{}.txt",
         cli.prop,
         cli.tier.as_str(),
-        cli.seed,
-        std::process::id()
+        cli.seed
     ));
     report.count("triples handed to python3", py_samples.len() as u64);
     match run_python(&path, &py_samples) {
@@ -753,9 +768,6 @@ fn main() {
                 );
             }
         }
-    }
-    if report.violations_so_far() == 0 {
-        let _ = std::fs::remove_file(&path);
     }
 
     std::process::exit(report.finish());
